@@ -175,6 +175,10 @@ def plans(tier):
          "layouts": ["l0", "l1"] if q else query.LAYOUTS},
         {"name": "many", "kinds": {"x": "int", "y": "string"}, "epz": 1, "shards": 1, "n": 16, "n2": 20 if q else 200, "n3": 10 if q else 100,
          "layouts": ["l0ab"] if q else ["l0ab", "l1"]},
+        # an optional typed field absent in some events (never in a whole zone: that breaks the compaction reader, open
+        # finding C07-absent-column-breaks-compaction); flushed and compacted: the index files are rebuilt by compaction
+        {"name": "opt", "kinds": {"x": "numid_opt", "y": "int"}, "epz": 3, "shards": 1, "n": 12, "n2": 30 if q else 300, "n3": 20 if q else 200,
+         "layouts": ["mem", "l0", "l1"], "nulls_at": (2, 8)},
         {"name": "dt", "kinds": {"x": "datetime2", "y": "int"}, "epz": 3, "shards": 1, "n": 10, "n2": 30 if q else 300, "n3": 20 if q else 200,
          "layouts": ["l0", "l1"] if q else query.LAYOUTS},
         # kinds whose leaves mostly hit open findings: kept as small probe plans
@@ -209,6 +213,8 @@ def run(tier):
             for f in fields:
                 if kinds[f] == "bool":
                     e["f"][f] = rnd.choice((0, 1))
+                if kinds[f].endswith("_opt") and e["k"] in pl.get("nulls_at", ()):
+                    e["f"][f] = query.NULL
         probes = [0, 1, 2, 3, 4]
         cases, r = query.gen_cases(f"c02_{pl['name']}", data, fields, probes, ctxs[:2], [20, 25], pl["n2"], pl["n3"], ordf, core.seed())
         states += r.distinct
